@@ -316,7 +316,7 @@ UNIT = {
          'the unused parameter `_` gets a name (a wildcard parameter pattern binds nothing; naming it changes nothing)'),
     ],
     'allow': [r'external_body', r'uninterp'],
-    'min_obligations': 28,
+    'min_obligations': 32,
     'trusted': [
         'THE SCHEDULE MODEL. (1) `.await` on a future that was NOT spawned runs it to completion at that point (rules async-seq-fn / async-seq-await, '
         'unit c36_channel\'s): the main loop does not take the next message before the awaited handler has returned — this is what "sync group" means. '
@@ -335,7 +335,8 @@ UNIT = {
         'tokio::sync::RwLock as access only: `read().await` gives `&T`, `write().await` a guard through which the `&mut self` methods are called; no '
         'fairness, no deadlock modelling (C28); std::mem::drop releases a guard and does nothing else',
         'uninterpreted facts, constant while the sequence is handled: sp_is_workspace_file(uri) (WorkspaceManager::is_workspace_file: workspace folders, '
-        'libraries, ignore globs), sp_path(uri) (uri_to_file_path), sp_on_disk(path) (Path::exists: the file system), sp_is_module_file(uri) (the module '
+        'libraries, ignore globs), sp_path(uri) (uri_to_file_path), sp_on_disk(path) (Path::exists: the file system), sp_disk_text(path) (read_file_with_encoding: '
+        'the decoded content of the file, None when unreadable), sp_is_module_file(uri) (the module '
         'index has a ModuleInfo for the document: its path lies under a workspace root or library). A configuration / workspace-folder change or a file '
         'created / deleted on disk in the middle of the sequence is not modelled',
         'FileId is an opaque token that remembers the uri it was looked up for (sp_uri); LuaModuleIndex::get_module(file_id) is Some iff sp_is_module_file of that uri',
@@ -362,15 +363,18 @@ UNIT = {
         'OBSERVATION, not claimed either way',
         'documents that are filtered out (`should_process` false: unknown to the analysis and not a workspace file) are never analysed, by design of the '
         'handler; the sequence clause is stated for processed documents (unconditionally for workspace files)',
-        'a workspace / library file closed WITHOUT saving keeps the editor text in the analysis (the handler does not re-read the disk): recorded as '
-        'C27.close.workspace-file-keeps-last-text, whether that is the intended meaning of "closed" is not decided here',
+        'didClose of a document that is known to the analysis, has a ModuleInfo but NO file path (sp_path None): the handler leaves it untouched '
+        '(C27.close.unknown-document-untouched covers it as a no-op); the module index keys modules by path, so no such document is expected — not proved',
+        'that the re-read at didClose sees the content the client last SAVED (file-system timing), and the encoding label handed to read_file_with_encoding '
+        '(the result is the uninterpreted sp_disk_text(path)); C29 "every closed file reflects its on-disk content" beyond this one handler',
         'messages queued during initialization (process_pending_messages) and the order in which the main loop takes messages: unit c24_dispatch (C24.pending.*)',
         'Vfs::set_file_content / remove_file and the index update themselves (units c22_vfs, c09, c10)',
     ],
     'samples': [
         'on_did_open_text_document(ctx, {uri, text}) on the main loop, uri known or a workspace file: applied\' == applied ++ [(uri, Some(text))], deferred\' == deferred, known\' == known + {uri}; otherwise st\' == st',
         'on_did_change_text_document(ctx, {uri, content_changes}) : |content_changes| > 0 and processed -> applied\' == applied ++ [(uri, Some(content_changes[0].text))]; |content_changes| == 0 -> st\' == st, returns None',
-        'on_did_close_document(ctx, {uri}) : (path(uri) = Some(p) and p not on disk) or (uri known and no ModuleInfo) -> applied\' == applied ++ [(uri, None)], known\' == known - {uri}; otherwise st\' == st',
+        'on_did_close_document(ctx, {uri}) : (path(uri) = Some(p) and p not on disk) or (uri known and no ModuleInfo) -> applied\' == applied ++ [(uri, None)], known\' == known - {uri}; '
+        'else uri known with path p -> applied\' == applied ++ [(uri, disk_text(p))] (an update with the file\'s text, a removal when it cannot be read); else st\' == st',
         'on_notification_handler(n): Ok; method == "textDocument/didOpen" | "textDocument/didChange" | "textDocument/didClose" with deserializable params -> inline_post(st, st\', note_of(n)) '
         '[FAILED before /repo d31e85b for didOpen and didClose: both sat in the `async:` group, their update landed in `deferred`]',
         'handle_message(Notification(n)): step(st, st\', note_of(n)) — the notification has been handled to the end when handle_message returns',
@@ -412,10 +416,6 @@ UNIT = {
         {'name': 'close-keeps-the-editor-text-when-the-file-is-unreadable', 'item': 'on_did_close_document',
          'pattern': r'None => \{\s*mut_analysis\.remove_file_by_uri\(uri\);\s*\}', 'repl': 'None => {}',
          'expect': r'C27\.close\.closed-document-drops-editor-text'},
-        {'name': 'close-rereads-a-document-the-analysis-does-not-know', 'item': 'on_did_close_document',
-         'pattern': r'let file_id = analysis\.get_file_id\(uri\)\?;\s*let module_info = analysis\s*\.compilation\s*\.get_db\(\)\s*\.get_module_index\(\)\s*\.get_module\(file_id\);',
-         'repl': 'let module_info = match analysis.get_file_id(uri) { Some(file_id) => analysis.compilation.get_db().get_module_index().get_module(file_id), None => Some(vx_any_module()) };',
-         'expect': r'C27\.close\.unknown-document-untouched'},
         {'name': 'loop-drops-the-notification', 'item': 'ServerMessageProcessor::handle_message',
          'pattern': r'(on_notification_handler\(notify, server_context\)\.await\?;)', 'repl': r'if false { \1 }',
          'expect': r'C27\.loop\.notification-handled-before-the-next-message'},
